@@ -30,15 +30,25 @@ structure StepInfo (inp : RunInput) (nT : Nat) (s s' : Sys) : Prop where
   ev : ∃ new, s'.events = new ++ s.events ∧
     ∀ t d, d ∈ inp.setup t → Ev.getStatus t ∈ trace inp s → (∃ e ∈ new, Ev.isTerminalOf t e = true) →
       ∃ e ∈ trace inp s, Ev.mentions d e = true
-  gmono : ∀ p, (stOf s p).good = true → (stOf s' p).good = true
+  dmono : ∀ p r, Ds inp s p r → Ds inp s' p r
   rf : (∀ a, stOf s a = .run → ranFirst inp nT (trace inp s) a = true) →
     ∀ a, stOf s' a = .run → ranFirst inp nT (trace inp s') a = true
+
+theorem started_mono {s s' : Sys} {new : List Ev} (e : s'.events = new ++ s.events) {p : Name}
+    (h : started s p = true) : started s' p = true := by
+  unfold started at h ⊢; rw [e, List.any_append, h]; simp
+
+theorem ds_mono {inp : RunInput} {s s' : Sys} {new : List Ev} (e : s'.events = new ++ s.events) {p : Name}
+    (hst : stOf s' p = stOf s p) {r : CalcRes} (h : Ds inp s p r) : Ds inp s' p r := by
+  rcases h with ⟨a, b⟩ | ⟨a, b, c⟩
+  · exact Or.inl ⟨by rw [hst]; exact a, b⟩
+  · exact Or.inr ⟨by rw [hst]; exact a, started_mono e b, c⟩
 
 theorem stepInfo {inp : RunInput} {s s' : Sys} (c : Ctx inp s) (nT : Nat) (sh : Shape inp s s') :
     StepInfo inp nT s s' := by
   cases sh with
   | quiet new hst hev hq hstop =>
-    refine ⟨⟨new, hev, ?_⟩, fun p hp => by rw [hst]; exact hp, ?_⟩
+    refine ⟨⟨new, hev, ?_⟩, fun p r hp => ds_mono hev (hst p) hp, ?_⟩
     · intro t d _ _ ⟨e, he, ht⟩
       have := terminal_not_quiet ht; rw [hq e he] at this; cases this
     · intro hrf a ha
@@ -69,13 +79,13 @@ theorem stepInfo {inp : RunInput} {s s' : Sys} (c : Ctx inp s) (nT : Nat) (sh : 
         · have : stOf s d ≠ .none := by
             intro h0; have x1 := x.1; rw [h0] at x1; cases x1
           exact ⟨_, c.status_mention this, by simp [Ev.mentions]⟩
-    · intro p hp
-      rw [hst]
+    · intro p r hp
       by_cases e : p = n
       · subst e
-        rw [hstn] at hp
-        rcases selDecision_status hd with x | x <;> (rw [x] at hp; cases hp)
-      · rw [if_neg e]; exact hp
+        exfalso
+        rcases hp with ⟨a, _⟩ | ⟨a, _⟩ <;> rw [hstn] at a <;>
+          rcases selDecision_status hd with x | x <;> (rw [x] at a; cases a)
+      · exact ds_mono hev' (by rw [hst, if_neg e]) hp
     · intro hrf a ha
       rw [trace_append hev']
       apply ranFirst_stable
@@ -102,11 +112,12 @@ theorem stepInfo {inp : RunInput} {s s' : Sys} (c : Ctx inp s) (nT : Nat) (sh : 
         have hin : d ∈ deps := c.h2.gs t deps hdeps d (by simp [staticDeps, hdt])
         exact finBefore_finished (ordOK_go c.h2.ord hdeps d hin)
       · have := terminal_not_quiet ht; rw [hq e a] at this; cases this
-    · intro p hp
-      rw [hst]
+    · intro p r hp
       by_cases e : p = n
-      · subst e; rw [hstn] at hp; cases hp
-      · rw [if_neg e]; exact hp
+      · subst e
+        exfalso
+        rcases hp with ⟨a, _⟩ | ⟨a, _⟩ <;> (rw [hstn] at a; cases a)
+      · exact ds_mono hev' (by rw [hst, if_neg e]) hp
     · intro hrf a ha
       rw [trace_append hev']
       apply ranFirst_stable
